@@ -273,8 +273,10 @@ Fixpoint inl (rj : nat) (t : tree) (cx : ctx) (s : cst) {struct t} : res out :=
       end)
     | KGroup => sub r (plain c) s
     | KSideEffect =>
-      seq2 (sub r (plain c) (emit s (I_StartSideEffect, ONone) (Some ix))) (fun s1 =>
-      ret (emit s1 (I_EndSideEffect, ONone) (Some ix)))
+      (* the expression the block was attached to (its left child) is built first *)
+      seq2 (sub l (plain c) s) (fun s0 =>
+      seq2 (sub r (plain c) (emit s0 (I_StartSideEffect, ONone) (Some ix))) (fun s1 =>
+      ret (emit s1 (I_EndSideEffect, ONone) (Some ix))))
     | KNested =>
       match r with
       | None => ret (emit s (I_Put, OExpr rj) (Some ix))
